@@ -87,6 +87,15 @@ class odict(dict):
         for key in self._keys:
             yield key
 
+    def __reversed__(self):
+        """ reversed(x) in reverse key order"""
+        return reversed(self._keys[:])
+
+    def __ior__(self, other):
+        """ x |= other  same as x.update(other) so ._keys stays in step"""
+        self.update(other)
+        return self
+
     def __repr__(self):
         """
         odict representation
@@ -248,7 +257,7 @@ class odict(dict):
 
         if other is self:
             #raise ValueError('other cannot be the same odict')
-            pass #updating with self makes no changes
+            return #updating with self makes no changes
 
         dict.update(self, other)
         keys = self._keys
